@@ -686,6 +686,65 @@ example :
     (serveRaw cfg 2 { method := "GET".toList, target := "/kapacitor/v1/tasks/x%2Fy".toList, auth := cred }).map (·.served) = some true := by
   decide
 
+/-! ### the handler that RUNS is the one whose privilege was checked (routing method = authorised method) -/
+
+/-- STATED, NOT YET PROVED (kept as a `def …_stmt`, not counted): **the served handler's method is the authorised
+method**, for every configuration, request, set of headers and
+depth of preview re-entry: when the chain (mux chosen by the wire method, `ranRoute wireMethod`) lets the handler of
+route `r` run, `r` is registered for the method on the wire, and some request `q` of the re-entry chain — same method,
+same credentials — passed `authenticate` for this very route and `authorizeRequest` for `r`'s OWN method on `q`'s
+path, which `r`'s pattern covers. -/
+def handler_that_runs_is_the_authorised_one_stmt : Prop :=
+  ∀ (cfg : Cfg) (hdrs : Headers) (fuel : Nat) (req : Req) (r : Route),
+    ranRoute wireMethod cfg hdrs fuel req = some r →
+    r.method = req.method ∧
+    ∃ (q : Req) (u : Account) (w : Bool), q.method = req.method ∧ q.auth = req.auth ∧
+      authenticate (routeRequiresAuth cfg r) cfg.svc q.auth = .inner u w ∧
+      authorizeRequest r.method q.path u = true ∧ pathMatch r.pattern q.path = true
+
+example :
+    (ranRoute wireMethod
+      { requireAuth := false, extra := [{ method := "GET".toList, pattern := "/kapacitor/v1/tasks".toList, kind := .recorder }] }
+      [] 2 { method := "GET".toList, path := "/kapacitor/v1/tasks".toList }).isSome = true := by decide
+
+/-- **No header chooses the handler**: which route runs is the same for every two sets of request headers. -/
+theorem headers_never_choose_the_handler (cfg : Cfg) (h₁ h₂ : Headers) (fuel : Nat) (req : Req) :
+    ranRoute wireMethod cfg h₁ fuel req = ranRoute wireMethod cfg h₂ fuel req := by
+  induction fuel generalizing req with
+  | zero => rfl
+  | succ n ih =>
+    have : ranRoute wireMethod cfg h₁ n = ranRoute wireMethod cfg h₂ n := funext ih
+    show ranLevel wireMethod cfg (ranRoute wireMethod cfg h₁ n) h₁ req = ranLevel wireMethod cfg (ranRoute wireMethod cfg h₂ n) h₂ req
+    rw [this]
+    rfl
+
+/-- **Counterexample for a header-derived routing method** (the regression the `httph` cases and the extractor fact
+`Gen.serveHTTPMethodSources` guard against): with the mux chosen by `X-HTTP-Method-Override` while authorisation reads
+the wire method, a user holding read+write but NOT delete on /api runs the DELETE handler with a POST — and would be
+refused the very same handler when asking for it with DELETE on the wire. -/
+theorem method_override_would_run_unchecked_handler :
+    let writer : Account := { grants := [("/api".toList, [2, 4])] }
+    let cfg : Cfg := { requireAuth := true, svc := { users := [("w".toList, "pw".toList, writer)] },
+                       extra := [{ method := "POST".toList, pattern := "/kapacitor/v1/tasks/".toList, kind := .recorder },
+                                 { method := "DELETE".toList, pattern := "/kapacitor/v1/tasks/".toList, kind := .recorder }] }
+    let cred : ReqAuth := { header := .basic "w".toList "pw".toList }
+    let hdrs : Headers := [("X-HTTP-Method-Override".toList, "delete".toList)]
+    let post : Req := { method := "POST".toList, path := "/kapacitor/v1/tasks/x".toList, auth := cred }
+    (ranRoute overrideMethod cfg hdrs 2 post).map (·.method) = some "DELETE".toList ∧
+    authorizeRequest "DELETE".toList post.path writer = false ∧
+    Spec.ranOK true false cfg.svc post "DELETE".toList "/kapacitor/v1/tasks/".toList = false ∧
+    ranRoute wireMethod cfg hdrs 2 { post with method := "DELETE".toList } = none ∧
+    (ranRoute wireMethod cfg hdrs 2 post).map (·.method) = some "POST".toList ∧
+    Spec.ranOK true false cfg.svc post "POST".toList "/kapacitor/v1/tasks/".toList = true := by
+  decide
+
+/-- The source routes on the wire method: `Handler.ServeHTTP` (re-read by the extractor on every run, fail closed)
+indexes `h.methodMux` by a variable whose only sources are `r.Method` and the literal "GET" (for an empty method),
+and uses the request for nothing but `r.Method` and handing it on. -/
+theorem gen_routes_on_wire_method :
+    Gen.serveHTTPMethodSources = ["r.Method", "\"GET\""] ∧ Gen.serveHTTPRequestUses = ["r.Method", "r"] := by
+  decide
+
 -- `database_resource_injective_partial`: its hypothesis holds for ordinary names
 example : ¬ ('/' ∈ "telegraf".toList ∧ '/' ∈ "a/b".toList) := by decide
 example : Dev_db_collision "a/b_".toList "a_b/".toList = true ∧ Dev_db_collision "a/b".toList "a_b".toList = false := by decide
